@@ -22,3 +22,23 @@ Definition rel_to_cwd (cwd : list seg) (p : path) : path :=
 
 (* PortionAfterSep(input, "/", occ): the last occ+1 segments (the whole input when it has no more than that) *)
 Definition portion_after_sep {A} (l : list A) (occ : nat) : list A := skipn (length l - (occ + 1)) l.
+
+(* AbsFromCwd (the sort key of diagnostics since finding F107): filepath.Join(cwd, name) of a relative name -- climb for
+   every "..", descend for every segment (filepath.Clean) --, an absolute name as it is *)
+Fixpoint join_clean (acc : list seg) (r : list rseg) : list seg :=
+  match r with
+  | [] => acc
+  | Up :: r' => join_clean (removelast acc) r'
+  | Seg s :: r' => join_clean (acc ++ [s]) r'
+  end.
+
+Definition abs_from_cwd (cwd : list seg) (p : path) : list seg :=
+  match p with Abs t => t | Relp r => join_clean cwd r end.
+
+(* lexicographic comparison of segment lists (the order of the cleaned absolute names, segment-wise) *)
+Fixpoint lex_leb (a b : list seg) : bool :=
+  match a, b with
+  | [], _ => true
+  | _ :: _, [] => false
+  | x :: a', y :: b' => if Nat.eqb x y then lex_leb a' b' else Nat.leb x y
+  end.
